@@ -8,6 +8,8 @@ import operator
 import numpy as np
 
 NONE_I = 99
+# mirror of Api.SliceTab (the harness asserts equality with the table TLC prints)
+SLICE_TAB = [[99, 99, 99], [0, 2, 99], [1, 99, 99], [99, 99, -1], [99, -1, 99], [0, 99, 2], [2, 5, 99], [1, 1, 99]]
 
 
 def q(x):
@@ -133,6 +135,44 @@ def execute(call, objs):
         return cmp(call['op'], a, lit_value(call['lit']))
     if c == 'RCmpLit':
         return cmp(call['op'], lit_value(call['lit']), a)
+    if c == 'MGet':
+        k = call['k']
+        def sl(i):
+            t = SLICE_TAB[i - 1]
+            return slice(none_i(t[0]), none_i(t[1]), none_i(t[2]))
+        if k == 0:
+            return a[call['i'], call['j']]
+        if k == 1:
+            return a[call['i'], sl(call['j'])]
+        if k == 2:
+            return a[sl(call['i']), call['j']]
+        return a[sl(call['i']), sl(call['j'])]
+    if c == 'Transpose':
+        return a.T
+    if c == 'Diagonal':
+        if call['k'] == 1:
+            from optyx.core.matrices import diag
+            return diag(a)
+        return a.diagonal()
+    if c == 'Trace':
+        if call['k'] == 1:
+            from optyx.core.matrices import trace
+            return trace(a)
+        return a.trace()
+    if c == 'Frobenius':
+        from optyx.core.matrices import frobenius_norm
+        return frobenius_norm(a)
+    if c == 'MatVec':
+        return a @ b
+    if c == 'QuadForm':
+        from optyx.core.matrices import quadratic_form
+        return quadratic_form(a, lit_value(call['lit']))
+    if c == 'MCmp':
+        return cmp(call['op'], a, b)
+    if c == 'MCmpLit':
+        return cmp(call['op'], a, lit_value(call['lit']))
+    if c == 'MRCmpLit':
+        return cmp(call['op'], lit_value(call['lit']), a)
     raise ValueError('unknown call ' + c)
 
 
@@ -203,6 +243,31 @@ def call_str(call, handles=None):
     if c == 'CmpLit':
         return '%s %s %s' % (A, call['op'], L)
     if c == 'RCmpLit':
+        return '%s %s %s' % (L, call['op'], A)
+    if c == 'MGet':
+        def sl(i):
+            t = SLICE_TAB[i - 1]
+            f = lambda v: '' if v == NONE_I else str(v)
+            return '%s:%s:%s' % (f(t[0]), f(t[1]), f(t[2]))
+        k = call['k']
+        return '%s[%s, %s]' % (A, call['i'] if k in (0, 1) else sl(call['i']), call['j'] if k in (0, 2) else sl(call['j']))
+    if c == 'Transpose':
+        return '%s.T' % A
+    if c == 'Diagonal':
+        return ('diag(%s)' if call['k'] else '%s.diagonal()') % A
+    if c == 'Trace':
+        return ('trace(%s)' if call['k'] else '%s.trace()') % A
+    if c == 'Frobenius':
+        return 'frobenius_norm(%s)' % A
+    if c == 'MatVec':
+        return '%s @ %s' % (A, B)
+    if c == 'QuadForm':
+        return 'quadratic_form(%s, %s)' % (A, L)
+    if c == 'MCmp':
+        return '%s %s %s' % (A, call['op'], B)
+    if c == 'MCmpLit':
+        return '%s %s %s' % (A, call['op'], L)
+    if c == 'MRCmpLit':
         return '%s %s %s' % (L, call['op'], A)
     return '%s(%s)' % (c, {k: v for k, v in call.items() if v not in (0, '', None) and k not in ('c', 'lit')})
 
